@@ -8,7 +8,12 @@
 (* characters (mode "chr"), or a tower opener^n (mode "tower").  For every *)
 (* case the specification predicts the same observable: parsing returns a  *)
 (* tree whose leaves concatenate to the input, plus a list of errors - it  *)
-(* does not panic, abort or hang.                                          *)
+(* does not panic, abort or hang.  A fourth family of cases comes from the *)
+(* reference grammar: every program GleamSyn.tla generates within its      *)
+(* budget, damaged at every token position (cut off after the token, the   *)
+(* token deleted, the token replaced by a token that ends or continues a   *)
+(* construct) - the error paths of every production, with the same         *)
+(* predicted observable.                                                   *)
 (*                                                                         *)
 (* Part 2 - progress model.  Look-ahead burns fuel, consuming a token      *)
 (* refills it, running out panics.  With D nested constructs left open at  *)
